@@ -211,6 +211,9 @@ def site_id(r):
     return h
 
 
+import re as _re
+
+
 def load_known():
     p = os.path.join(HERE, 'known_findings.json')
     if not os.path.exists(p):
@@ -228,6 +231,8 @@ def match_known(r, prop, known):
         if k.get('func') and not r['func'].endswith(k['func']):
             continue
         if k.get('construct') and k['construct'] not in r['construct']:
+            continue
+        if k.get('construct_re') and not _re.search(k['construct_re'], r['construct']):
             continue
         return k
     return None
